@@ -86,7 +86,7 @@ def run_keyset(chk, cc, name, keys, tier, rng):
 
     t0 = time.time()
     try:
-        res = X.run_single_path(fn, name="C07:" + name)
+        res = X.run_single_path(fn, name="C07:" + name, generic=True)
     except SymError as e:
         # the code compares data where the statement has no case distinction: look at the real code on concrete tensors (among them
         # cubic / isotropic ones, where Voigt and Reuss coincide) before calling it inconclusive
@@ -325,7 +325,7 @@ def history_obligation(chk, cc, names, rng):
         return first, again
     fails = []
     try:
-        first, again = X.run_single_path(scenario, name="C07:history")
+        first, again = X.run_single_path(scenario, name="C07:history", generic=True)
     except Exception as e:
         fails.append("raises %s: %s" % (type(e).__name__, e))
         first = again = None
@@ -549,7 +549,7 @@ def ordering(chk, cc, tier, rng):
             def fn():
                 return dict(KV=vb.bulk_modulus_voigt[0, 0], KR=vb.bulk_modulus_reuss[0, 0], KH=vb.bulk_modulus_voigt_reuss_hill[0, 0],
                             GV=vb.shear_modulus_voigt[0, 0], GR=vb.shear_modulus_reuss[0, 0], GH=vb.shear_modulus_voigt_reuss_hill[0, 0])
-            r = X.run_single_path(fn, name="C07:ordering")
+            r = X.run_single_path(fn, name="C07:ordering", generic=True)
         except Exception as e:
             chk.inconclusive("ordering " + name, "%s: %s" % (type(e).__name__, e))
             continue
